@@ -55,6 +55,8 @@ def write_input(path, rng, tps, n_pipes):
             else:
                 a = F(k * 100 + rng.randint(0, 99), 100 * tps)          # 0.29 at 100 ticks/s style: on a finer decimal grid
             text = dec_str(a, places)
+            if a and a < F(1, 10**4) and rng.random() < 0.7:
+                text = repr(float(a))          # the way Python (and the trace writer) spells small times: 7e-05
             for o in range(rng.randint(1, 3)):
                 w.writerow([f"p{p + 1}", text if o == 0 else "", rng.choice(["QUERY", "INTERACTIVE", "BATCH_PIPELINE"]) if o == 0 else "",
                             f"op{o + 1}", "" if o == 0 else f"op{o}", rng.choice(["1", "2.5", "0.125"]), rng.choice(["const", "linear3", "sqrt"]),
@@ -184,6 +186,8 @@ def sample_case(rng, tid, d):
     tps = rng.choice([1, 10, 100])
     start = rng.choice([0, 42, rng.randrange(1000)])
     n = rng.choice([2, 3])
+    if tid % 7 == 3:
+        n = (os.cpu_count() or 4) + 1          # more samples than processors: the command may not start them all at once
     pfile = f"{d}/params{tid}.toml"
     dur = rng.choice([30, 90])
     with open(pfile, "w") as f:
